@@ -20,7 +20,6 @@ Oracles
            and every `ScopeLet.add` fresh name of one compiler instance is distinct.
 """
 import ast
-import re
 
 from hv import gen_prog as G
 from hv import outgen as O
@@ -32,12 +31,14 @@ RULE = ("four corpora, user names drawn from a hostile near-miss pool (anon_1 _a
         "local_macro__m, let_<user name>_<k> ..., never starting with _hy_), all pool names pre-bound to sentinels: "
         "(a) gen_prog programs, injectively renamed, module and function mode; (b) template programs over with/try/"
         "let/match/lfor-sfor-dfor-gfor (incl. clause-less and #** forms)/while/fn/defn/defclass/local macros/import :as/"
-        "nonlocal-global/assert/chainc/require, rendered with hostile and with benign names; (c) nested lets binding "
+        "nonlocal-global/assert/chainc/require, rendered with hostile and with benign names, with two user variables that "
+        "are bound once and only read afterwards and `with ... as v` variables read right after the form (closed-form "
+        "expected values); (c) nested lets binding "
         "one hostile name with a closed-form trace; (d) the let/comprehension/nonlocal/match sources of the C04 C06 "
         "C07 C08 generators when importable (static oracle only). Non-trivial = the compiled AST contains >= 2 "
         "distinct _hy_ names; distinct by program text.")
 FLOOR = {"quick": 1000, "thorough": 1000}
-BUDGET = {"quick": 30, "thorough": 480}
+BUDGET = {"quick": 24, "thorough": 480}
 CASE_TIMEOUT = 20
 NEEDS_EVENTS = True
 ANCHORS = ["hy.compiler:HyASTCompiler.get_anon_var", "hy.scoping:ScopeLet.add", "hy.macros:local_macro_name",
